@@ -11,10 +11,11 @@
     [sock_read]/[sock_write] are [tcp_socket_read]/[tcp_socket_write] of
     [lib/src/socket.rs] over that value.
 
-    The model is of the tree *after* the two [fix:] commits (relay keeps the
+    The model is of the tree *after* the [fix:] commits (relay keeps the
     parsed header in its buffer; expect hands the bytes read past the header to
-    the pipe), and *with* the open finding (a client end-of-stream or HUP
-    closes the pipe without draining).  No proofs in this file. *)
+    the pipe; the backend is connected after the expected header; the client's
+    end-of-stream no longer closes the pipe before its bytes are forwarded).
+    No proofs in this file. *)
 From Coq Require Import List Arith NArith Lia Bool.
 From SV Require Import Common.Buf C18.Gen.
 Import ListNotations.
@@ -332,7 +333,9 @@ Definition st_write_closed (c : cstatus) : cstatus :=
   match c with CNormal => CReadOpen | CWriteOpen => CClosed | s => s end.
 
 (** [Pipe::frontend_hup] *)
-Definition pipe_frontend_hup (p : pipe) : pipe * result := (p_fst p CClosed, Close).
+Definition pipe_frontend_hup (p : pipe) : pipe * result :=
+  if ((0 <? avail_data (fbuf p)) || rr (fe p)) && has_back p then (p, Continue)
+  else (p_fst p CClosed, Close).
 
 (** [Pipe::backend_hup] *)
 Definition pipe_backend_hup (p : pipe) : pipe * result :=
@@ -362,7 +365,11 @@ Definition pipe_readable (p : pipe) (s : sock) : pipe * sock * result :=
     else
       match res with
       | SError => (p_reset p1, s', Close)
-      | SClosed => (p_reset p1, s', Close)
+      | SClosed =>
+        let p2 := p_fst p1 (st_read_closed (fst_ p1)) in
+        let p3 := p_fe (p_fi p2 (set_r (fi p2) false)) (set_r (fe p2) false) in
+        if negb (check_connections p3) then (p_reset p3, s', Close)
+        else (p_bi p3 (set_w (bi p3) true), s', Continue)
       | SWouldBlock =>
         let p2 := p_fe p1 (set_r (fe p1) false) in
         (p_bi p2 (set_w (bi p2) true), s', Continue)
@@ -410,7 +417,9 @@ Fixpoint pipe_bw_loop (fuel : nat) (p : pipe) (s : sock) (res : sres)
   | S fuel' =>
     if negb (sres_eqb res SContinue) then (p, s, None, res)
     else if avail_data (fbuf p) =? 0 then
-      (p_bi (p_fi p (set_r (fi p) true)) (set_w (bi p) false), s, Some Continue, res)
+      let p' := p_bi (p_fi p (set_r (fi p) true)) (set_w (bi p) false) in
+      if negb (check_connections p') then (p_reset p', s, Some Close, res)
+      else (p', s, Some Continue, res)
     else
       let '(s', n, r) := sock_write s (dat (fbuf p)) in
       let p1 := p_fbuf p (fst (consume (fbuf p) n)) in
@@ -713,7 +722,9 @@ Definition ready_inner (e : env) : env * option result :=
   | s =>
     if rh (fr_ev s) then
       let '(e1, r) := h_front_hup e in
-      if is_continue r then (e_se e1 (set_fr_ev (se e1) (set_h (fr_ev (se e1)) false)), r) else (e1, r)
+      if is_continue r
+      then ready_loop ready_fuel (e_se e1 (set_fr_ev (se e1) (set_h (fr_ev (se e1)) false)))
+      else (e1, r)
     else ready_loop ready_fuel e
   end.
 
